@@ -9,11 +9,19 @@ EXTENDS ObsBase
 VARIABLES tid, l, bad
 vars == <<tid, l, bad>>
 Init == tid \in 1..N /\ l = 1 /\ bad = ""
+\* some run of this program (without -O) ended an operation, an activity or the simulation with an AssertionError
+IsAssert(x) == LET exc == F(x, "exc", <<>>) IN
+               \/ (Len(exc) >= 2 /\ exc[1] = "other" /\ exc[2] = "AssertionError")
+               \/ ("out" \in DOMAIN x /\ F(x.out, "cls", "") = "AssertionError")
+Asserted == \E j \in 1..Len(Traces[tid]) : \E i \in 1..Len(Traces[tid][j].row) : IsAssert(Traces[tid][j].row[i])
 Step ==
   /\ l <= Len(Traces[tid]) /\ bad = ""
   /\ l' = l + 1 /\ UNCHANGED tid
-  /\ LET row == Traces[tid][l].row IN
-     bad' = IF \E i \in 1..Len(row) : row[i] # row[1] THEN "C02.diverged" ELSE ""
+  /\ LET row == Traces[tid][l].row
+         opt == F(Traces[tid][l], "opt", [i \in 1..Len(row) |-> FALSE])
+         \* the property compares runs with and without -O only for programs that trip no assertion
+         Same(i, k) == row[i] = row[k] \/ (Asserted /\ opt[i] # opt[k]) IN
+     bad' = IF \E i \in 1..Len(row) : \E k \in 1..Len(row) : ~Same(i, k) THEN "C02.diverged" ELSE ""
 Spec == Init /\ [][Step]_vars
 Report == (bad # "") => PrintT(<<"V", tid, bad, l - 1>>)
 =============================================================================
